@@ -163,6 +163,25 @@ class Sim:
     def task(self, env, t):
         return self.w.tasks[env[t - 1000] if t >= 1000 else t]
 
+    def query_code(self):
+        from asynkit.scheduling import runnable_tasks, blocked_tasks
+        try:
+            r = runnable_tasks(self.loop)
+        except AssertionError:
+            return -1
+        try:
+            b = blocked_tasks(self.loop)
+        except AssertionError:
+            return -2
+        return len(r) * 10000 + len(b) * 100 + len(asyncio.all_tasks(self.loop))
+
+    def exc_code(self, e):
+        if e is None:
+            return 900
+        o = self.exc_obs(e)
+        return {1: 901, 2: 910 + o[1], 3: 903, 4: 904, 5: 950 + o[1], 6: 960 + o[1], 7: 907,
+                8: 980 + o[1], 9: 909, 10: 908}.get(o[0], 999)
+
     def logcb(self, n):
         self.log.append([self.who(), n])
 
@@ -204,9 +223,17 @@ class Sim:
             from asynkit.experimental.interrupt import task_throw
             task_throw(self.task(env, op[1]), self.mkexc(op[2]))
         elif k == "setprio":
-            asyncio.current_task().priority_value = float(fr(op[1]))
+            from asynkit.experimental.priority import PriorityTask
+            t = asyncio.current_task()
+            if not isinstance(t, PriorityTask):
+                raise ValueError()
+            t.priority_value = float(fr(op[1]))
         elif k == "self":
             pass
+        elif k == "query":
+            self.log.append([self.who(), self.query_code()])
+        elif k == "callsoonquery":
+            self.loop.call_soon(lambda: self.log.append([self.who(), self.query_code()]))
         else:
             return False
         return True
@@ -280,6 +307,10 @@ class Sim:
             if k == "do":
                 await self.do_op(s[1], env)
                 s = s[2]
+                continue
+            if k == "logexc":
+                self.log.append([self.who(), self.exc_code(cur)])
+                s = s[1]
                 continue
             if k == "spawn":
                 how = s[1]
@@ -368,6 +399,18 @@ class Sim:
         cbs = f._callbacks
         return [s, len(cbs) if cbs else 0, bool(f._asyncio_future_blocking)]
 
+    def handle_task(self, h):
+        """ground truth, independent of asynkit's task_from_handle: is this handle a task's
+        step or wakeup?  (decided from the callback object itself)"""
+        cb = h._callback
+        owner = getattr(cb, "__self__", None)
+        if owner is None or id(owner) not in self.w._tid or self.w.tasks[self.w._tid[id(owner)]] is not owner:
+            return -1
+        name = (getattr(cb, "__name__", "") or type(cb).__name__)
+        if name in ("__step", "_Task__step", "__wakeup", "_Task__wakeup", "task_wakeup", "TaskStepMethWrapper"):
+            return self.w.tid(owner)
+        return -1
+
     def obs_pq(self, q, objf):
         if q is None:
             return [0, []]
@@ -376,7 +419,7 @@ class Sim:
     def observe(self):
         from asynkit.experimental.priority import PriorityLock, PriorityCondition, PriorityTask
         w = self.w
-        hl = [[w.hid(h), bool(h._cancelled)] for h in w.ready_handles()]
+        hl = [[w.hid(h), bool(h._cancelled), self.handle_task(h)] for h in w.ready_handles()]
         if w.kind == "prio":
             q = self.loop.ready_queue
             arr = []
@@ -395,9 +438,13 @@ class Sim:
                 holding = sorted(self.locks.index(l) for l in t._holding_locks)
                 wo = -1 if t._waiting_on is None else self.locks.index(t._waiting_on)
                 pr = [L.qobs(Fraction(t.priority_value))]
+                try:
+                    ep = [L.qobs(Fraction(t.effective_priority()))]
+                except RecursionError:
+                    ep = [[-999, 1]]
             else:
-                holding, wo, pr = [], -1, []
-            tasks.append([t.done(), -1 if fw is None else w.fid(fw), bool(t._must_cancel), holding, wo, pr])
+                holding, wo, pr, ep = [], -1, [], []
+            tasks.append([t.done(), -1 if fw is None else w.fid(fw), bool(t._must_cancel), holding, wo, pr, ep])
         locks = []
         for l in self.locks:
             if isinstance(l, PriorityLock):
@@ -438,11 +485,30 @@ def impl_sched(case):
     try:
         return sim.run_case()
     finally:
-        for t in sim.w.tasks:
-            try:
-                t._log_destroy_pending = False
-            except Exception:
-                pass
+        # deterministic teardown: finish every pending coroutine NOW (their finally blocks
+        # run against this case's loop), then collect, so that nothing of this case runs
+        # in the middle of the next one
+        import gc
+        try:
+            with sim.w.running():
+                for t in sim.w.tasks:
+                    try:
+                        t._log_destroy_pending = False
+                        if not t.done():
+                            t.get_coro().close()
+                    except BaseException:
+                        pass
+        except BaseException:
+            pass
+        try:
+            sim.loop._ready.clear()
+            sim.loop._scheduled.clear()
+            sim.loop.close()
+        except BaseException:
+            pass
+        sim.w.tasks.clear(); sim.w.futures.clear(); sim.w.handles.clear()
+        del sim
+        gc.collect(1)
 
 
 # ----------------------------------------------------------------------------
@@ -493,6 +559,8 @@ def coq_op(op):
         "interrupt": lambda: f"OTaskInterrupt {n(op[1])} {coq_exn(op[2])}",
         "setprio": lambda: f"OSetPrio {L.q(fr(op[1]))}",
         "self": lambda: "OSelf",
+        "query": lambda: "OQuery",
+        "callsoonquery": lambda: "OCallSoonQuery",
     }
     return "(" + table[k]() + ")"
 
@@ -516,6 +584,8 @@ def coq_script(s):
         return f"(SRaise {coq_exn(s[1])})"
     if k == "reraise":
         return "SReraise"
+    if k == "logexc":
+        return f"(SLogExc {coq_script(s[1])})"
     if k == "do":
         return f"(SDo {coq_op(s[1])} {coq_script(s[2])})"
     if k == "spawn":
